@@ -16,6 +16,11 @@ def parseOld : Sexp → Option Bool
   | .atom "n" => some false
   | _ => none
 
+def toLit : Obj → Option LitObj
+  | .int n => some (.int n) | .bool b => some (.bool b) | .str s => some (.str s) | .bytes s => some (.bytes s)
+  | .none => some .none | .inst c i => some (.enum c i)
+  | _ => none
+
 mutual
 def toAnn : Sexp → Option AnnExpr
   | .atom "none" => some .none
@@ -29,7 +34,7 @@ def toAnn : Sexp → Option AnnExpr
   | .node [.atom "tupV", o, e] => do some (.tupV (← parseOld o) (← toAnn e))
   | .node [.atom "unpack", e] => (toAnn e).map .unpack
   | .node [.atom "star", e] => (toAnn e).map .star
-  | .node (.atom "lit" :: os) => (Sexp.toObjs os).map .lit
+  | .node (.atom "lit" :: os) => do some (.lit (← (← Sexp.toObjs os).mapM toLit))
   | .node [.atom "typ", o, e] => do some (.typ (← parseOld o) (← toAnn e))
   | .node [.atom "ann", e, .atom k] => do some (.ann (← toAnn e) (← k.toNat?))
   | .node [.atom "final", e] => (toAnn e).map .final
@@ -59,7 +64,7 @@ def showAnn : AnnExpr → String
   | .tupV o e => s!"(tupV {o2s o} " ++ showAnn e ++ ")"
   | .unpack e => "(unpack " ++ showAnn e ++ ")"
   | .star e => "(star " ++ showAnn e ++ ")"
-  | .lit os => "(lit" ++ Obj.showList os ++ ")"
+  | .lit os => "(lit" ++ Obj.showList (os.map LitObj.toObj) ++ ")"
   | .typ o e => s!"(typ {o2s o} " ++ showAnn e ++ ")"
   | .ann e k => "(ann " ++ showAnn e ++ s!" {k})"
   | .final e => "(final " ++ showAnn e ++ ")"
